@@ -42,7 +42,9 @@ type c06Req struct {
 	Graph     string     `json:"graph"` // graph named in traversal requests
 	Progs     [][]tStmt  `json:"progs,omitempty"`
 	Edits     []editCall `json:"edits,omitempty"`
+	NoWorkDir bool       `json:"no_workdir,omitempty"` // the server's work directory disappears before the requests arrive
 }
+
 var hangAfter = 30 * time.Second
 
 type c06Out struct {
@@ -86,6 +88,9 @@ func srvWorker(raw json.RawMessage) interface{} {
 		case <-time.After(hangAfter):
 			return c06Out{Class: "hang"}
 		}
+	}
+	if req.NoWorkDir {
+		os.RemoveAll(env.dir + "/work")
 	}
 	for _, p := range req.Progs {
 		p := p
@@ -237,7 +242,9 @@ func hostileProgs(rng *rand.Rand, n int) [][]tStmt {
 }
 
 func hostileEdits(rng *rand.Rand) [][]editCall {
-	el := func(g, kind, id string) bulkEl { return bulkEl{Graph: g, Kind: kind, ID: id, Label: "L", From: "a", To: "b"} }
+	el := func(g, kind, id string) bulkEl {
+		return bulkEl{Graph: g, Kind: kind, ID: id, Label: "L", From: "a", To: "b"}
+	}
 	return [][]editCall{
 		{{Op: "bulk", Elems: []bulkEl{el("missing", "v", "x"), el("missing", "v", "y")}}},
 		{{Op: "bulk", Elems: []bulkEl{el("missing", "v", "x"), el("g", "v", "y"), el("missing2", "e", "z"), el("g", "e", "w")}}},
@@ -284,6 +291,10 @@ func runC06(ctx *Ctx) error {
 			}
 		}
 		units = append(units, unit{req: c06Req{Populated: true, Graph: "missing", Progs: progs[:20]}, kind: "trav"})
+		// steps that use temporary storage, on a server whose work directory has gone
+		tmpProgs := [][]tStmt{{{Op: "V"}, {Op: "distinct"}}, {{Op: "V"}, {Op: "distinct", Strs: []string{"name"}}}, {{Op: "V"}, {Op: "out"}, {Op: "distinct"}, {Op: "count"}},
+			{{Op: "V"}, {Op: "aggregate", Aggs: []tAgg{{Name: "t", Kind: "term", Field: "name"}}}}, {{Op: "V"}, {Op: "limit", N: 1}}}
+		units = append(units, unit{req: c06Req{Populated: true, Graph: "g", Progs: tmpProgs, NoWorkDir: true}, kind: "trav"})
 		for _, es := range hostileEdits(ctx.Rng) {
 			units = append(units, unit{req: c06Req{Populated: true, Graph: "g", Edits: es}, kind: "edit"})
 			units = append(units, unit{req: c06Req{Populated: false, Graph: "g", Edits: es}, kind: "edit"})
@@ -302,12 +313,12 @@ func runC06(ctx *Ctx) error {
 			// find the culprit one request at a time
 			single := []json.RawMessage{}
 			for _, p := range u.req.Progs {
-				b, _ := json.Marshal(c06Req{Populated: u.req.Populated, Graph: u.req.Graph, Progs: [][]tStmt{p}})
+				b, _ := json.Marshal(c06Req{Populated: u.req.Populated, Graph: u.req.Graph, Progs: [][]tStmt{p}, NoWorkDir: u.req.NoWorkDir})
 				single = append(single, b)
 			}
 			for k := range u.req.Edits {
 				// edits are stateful: replay the prefix up to and including k
-				b, _ := json.Marshal(c06Req{Populated: u.req.Populated, Graph: u.req.Graph, Edits: u.req.Edits[:k+1]})
+				b, _ := json.Marshal(c06Req{Populated: u.req.Populated, Graph: u.req.Graph, Edits: u.req.Edits[:k+1], NoWorkDir: u.req.NoWorkDir})
 				single = append(single, b)
 			}
 			sres := runIsolated("srv", single, 8, 90*time.Second)
@@ -328,7 +339,7 @@ func runC06(ctx *Ctx) error {
 		// confirmation: a crash or hang only counts if it reproduces when the request runs alone
 		for k := 0; k < n && k < len(u.req.Progs); k++ {
 			if outs[k].Class == "hang" || outs[k].Class == "crash" {
-				b, _ := json.Marshal(c06Req{Populated: u.req.Populated, Graph: u.req.Graph, Progs: [][]tStmt{u.req.Progs[k]}})
+				b, _ := json.Marshal(c06Req{Populated: u.req.Populated, Graph: u.req.Graph, Progs: [][]tStmt{u.req.Progs[k]}, NoWorkDir: u.req.NoWorkDir})
 				sr := runIsolated("srv", []json.RawMessage{b}, 1, 120*time.Second)[0]
 				var o []c06Out
 				if !sr.Crashed && !sr.Timeout && json.Unmarshal(sr.Out, &o) == nil && len(o) == 1 {
@@ -341,10 +352,13 @@ func runC06(ctx *Ctx) error {
 			var model string
 			if k < len(u.req.Progs) {
 				p := u.req.Progs[k]
-				in = c06Req{Populated: u.req.Populated, Graph: u.req.Graph, Progs: [][]tStmt{p}}
+				in = c06Req{Populated: u.req.Populated, Graph: u.req.Graph, Progs: [][]tStmt{p}, NoWorkDir: u.req.NoWorkDir}
 				model = c06ModelClass(p, u.req.Graph)
+				if u.req.NoWorkDir {
+					model = "MAny" // rows or an error, never a crash
+				}
 			} else {
-				in = c06Req{Populated: u.req.Populated, Graph: u.req.Graph, Edits: u.req.Edits[:k-len(u.req.Progs)+1]}
+				in = c06Req{Populated: u.req.Populated, Graph: u.req.Graph, Edits: u.req.Edits[:k-len(u.req.Progs)+1], NoWorkDir: u.req.NoWorkDir}
 				model = "MAny"
 			}
 			o := outs[k]
